@@ -29,7 +29,7 @@ RULE = ('contents = any subset of the nine signatures (+ FAT look-alike) overlai
         'short files; x allowed_formats (None, singletons, all-but-raw, random subsets) x read-size sequences; the '
         'decision is sampled after every read. non-trivial = at least one signature present or a text/short file; '
         'distinct by (content digest, allowed set, read schedule)')
-REQUIRED_CLAUSES = ['source-hands-out-one-reused-buffer', 'formats-result-owned-by-caller', 'under-warnings-as-errors', 'allowed-respected-with-expected_format', 'interleaved-wrappers', 'zero-length-reads-are-neutral', 'formats-equal-signatures', 'format-decision', 'no-revision', 'only-ImageFormatError',
+REQUIRED_CLAUSES = ['detect_file_format-on-a-pipe', 'expected_format-does-not-change-the-decision', 'text-descriptor-in-one-read-is-vmdk', 'source-hands-out-one-reused-buffer', 'formats-result-owned-by-caller', 'under-warnings-as-errors', 'allowed-respected-with-expected_format', 'interleaved-wrappers', 'zero-length-reads-are-neutral', 'formats-equal-signatures', 'format-decision', 'no-revision', 'only-ImageFormatError',
                     'raw-exclusive', 'detect_file_format', 'fd-balance']
 ASSUMPTIONS = ['signature predicates written from the property text and the layout comments, sharing no code with the inspectors',
                'F1: for text-like content the VMDK text-descriptor match is chunk dependent; vmdk in formats is DONT-CARE '
@@ -53,6 +53,30 @@ SIGNAMES = ['qcow2', 'qed', 'vhd', 'vhdx', 'vmdk', 'vdi', 'iso', 'gpt', 'luks']
 
 def has_createtype(content):
     return b'createtype="' in content[:1 << 20].lower()
+
+
+_TEXTISH = set(range(0x20, 0x7f)) | {9, 10, 11, 12, 13, 0x1c, 0x1d, 0x1e, 0x1f}      # str.isprintable() or str.isspace()
+
+
+def text_descriptor_in_one_read(content):
+    """A text-only VMDK descriptor presented in ONE read: finding F1 (the outcome depends on the length of the first
+    chunks) does not apply, so the answer is pinned - at least 512 bytes, the first 512 all printable or whitespace ASCII
+    (as Python's str methods define them: 0x1c..0x1f are whitespace), everything up to the first NUL (within the 1 MiB the
+    inspector may keep) decodes as ASCII and holds createType="<fewer than 64 characters>"."""
+    if len(content) < 512 or content[:4] == b'KDMV' or not all(b in _TEXTISH for b in content[:512]):
+        return False
+    body = content[:(1 << 20) - 1]
+    nul = body.find(b'\0')
+    if nul >= 0:
+        body = body[:nul]
+    if not body.isascii():
+        return False
+    low = body.lower()
+    i = low.find(b'createtype="')
+    if i < 0:
+        return False
+    j = low.find(b'"', i + 12)
+    return 0 <= j - (i + 12) < 64
 
 
 def build_content(case):
@@ -140,6 +164,10 @@ def eval_case(ctx, case):
         ok_sets = [S]
         if f1 and has_createtype(content):
             ok_sets.append(S | {'vmdk'})
+        if (not cuts and not case.get('empties') and not case.get('short_reads') and 'vmdk' in allowed_names and
+                text_descriptor_in_one_read(content)):
+            ctx.clause('text-descriptor-in-one-read-is-vmdk')
+            ok_sets = [S | {'vmdk'}]
         if nonraw not in ok_sets:
             ctx.fail('formats-equal-signatures', case,
                      {'formats': sorted(names), 'signatures': sorted(S), 'f1_textlike': f1, 'len': len(content)})
@@ -188,8 +216,26 @@ def eval_detect(ctx, case):
     d = os.path.join(os.environ.get('VERIF_SCRATCH', '/dev/shm'), 'c03-%d' % ctx.shard)
     os.makedirs(d, exist_ok=True)
     path = os.path.join(d, 'img')
+    if os.path.lexists(path):
+        os.unlink(path)             # (the previous case may have left a named pipe here)
     with open(path, 'wb') as f:
         f.write(content)
+    feeder = None
+    if case.get('fifo'):
+        # the file name denotes a named pipe (a producer writes the image into it): read once, front to back
+        import threading
+        os.unlink(path)
+        os.mkfifo(path)
+        ctx.clause('detect_file_format-on-a-pipe')
+
+        def feed():
+            try:
+                with open(path, 'wb') as w:
+                    w.write(content)
+            except OSError:
+                pass
+        feeder = threading.Thread(target=feed, daemon=True)
+        feeder.start()
     before = len(os.listdir('/proc/self/fd'))
     try:
         r = F.detect_file_format(path)
@@ -198,8 +244,20 @@ def eval_detect(ctx, case):
         got = 'IFE'
     except BaseException as e:  # noqa
         got = 'EXC:' + type(e).__name__
+    if feeder is not None:
+        feeder.join(timeout=5)
+        if feeder.is_alive():
+            # nobody read the pipe to the end (detection stops early): open it ourselves so that the writer can finish
+            try:
+                fd = os.open(path, os.O_RDONLY | os.O_NONBLOCK)
+                while os.read(fd, 1 << 16):
+                    pass
+                os.close(fd)
+            except OSError:
+                pass
+            feeder.join(timeout=5)
     after = len(os.listdir('/proc/self/fd'))
-    ctx.case(('detect', content), nontrivial=bool(S))
+    ctx.case(('detect', content, bool(case.get('fifo'))), nontrivial=bool(S))
     ctx.clause('detect_file_format')
     ctx.clause('fd-balance')
     if after != before:
@@ -240,6 +298,15 @@ def eval_expected(ctx, case):
         named |= set(res['formats'])
     elif res['formats'] != 'EXC:ImageFormatError':
         ctx.fail('only-ImageFormatError', case, {'where': 'formats', 'formats': res['formats']})
+    if res['exc'] is None and expected in allowed:
+        # nothing was cut off: naming the expected format must not change what is detected (a second signature further
+        # down the stream still makes the content ambiguous)
+        plain = sl.feed_wrapper(content, case['cuts'], allowed=allowed, monitor=False)
+        ctx.clause('expected_format-does-not-change-the-decision')
+        if plain['exc'] is None and (plain['final'] != res['final'] or plain['formats'] != res['formats']):
+            ctx.fail('expected_format-does-not-change-the-decision', case,
+                     {'with_expected': [res['final'], res['formats']], 'without': [plain['final'], plain['formats']],
+                      'expected': expected})
     considered = {i.NAME for i in res['wrapper']._inspectors}
     if not named <= set(allowed) or not considered <= set(allowed):
         ctx.fail('allowed-respected-with-expected_format', case,
@@ -400,11 +467,13 @@ def run(ctx):
         nfill = rng4.choice([0, 1, 2, 4, 8, 20])
         extra = [['# ' + 'x' * rng4.randrange(5, 90), True] for _ in range(nfill)]
         head = ['# Disk DescriptorFile'] + ['# filler %d %s' % (j, 'y' * rng4.randrange(0, 70)) for j in range(rng4.choice([0, 1, 3, 9, 25]))]
+        if rng4.random() < 0.3:
+            head.insert(rng4.randrange(len(head) + 1), '# odd blank%s here' % chr(rng4.choice([0x1c, 0x1d, 0x1e, 0x1f, 0x0b, 0x0c])))
         spec = {'gen': 'vmdk_text', 'params': {'ctype': rng4.choice(['monolithicSparse', 'streamOptimized', 'vmfs']),
                                                'head': head, 'extra': extra, 'total': rng4.choice([None, None, 3000, 9000])}}
         data, _t = ig.build(spec)
         allowed = rng4.choice([['vmdk', 'raw'], ['vmdk', 'raw'], ['vmdk'], ['vmdk', 'raw', 'qcow2', 'gpt'], ['vmdk', 'luks', 'raw'], None])
-        size = rng4.choice([1, 7, 17, 64, 100, 192, 512, 600, 4096, 1 << 22])
+        size = rng4.choice([1, 7, 17, 64, 100, 192, 512, 600, 4096, 1 << 22, 1 << 22, 1 << 22])
         if len(data) // size > 20000:
             size = 17
         emit({'spec': spec, 'allowed': allowed, 'cuts': sl.fixed(len(data), size)}, 'text-descriptor')
@@ -464,6 +533,14 @@ def run(ctx):
             c = {'length': L, 'bg': rng7.choice(['zero', 'random', 'text']), 'seed': rng7.getrandbits(16),
                  'sigs': [expected] if expected in SIGNAMES and rng7.random() < 0.7 else [rng7.choice(SIGNAMES)]}
         emit(dict(c, kind='expected', allowed=allowed, expected=expected, cuts=cuts_for(rng7, L)), 'allowed-x-expected')
+        if i % 3 == 0:
+            # the expected format's signature first, another one further down (past the chunk that completes the header)
+            first = rng7.choice([n for n in SIGNAMES if n not in ('iso', 'vhdx')])
+            second = rng7.choice(['iso', 'iso', 'gpt', 'vdi'] if first not in ('gpt', 'vdi') else ['iso'])
+            Lp = rng7.choice([34816 + 64, 40000, 70000])
+            emit(dict(kind='expected', length=Lp, bg=rng7.choice(['zero', 'random']), seed=rng7.getrandbits(16),
+                      sigs=[first, second], allowed=sorted(set(NAMES)), expected=first,
+                      cuts=sl.fixed(Lp, rng7.choice([512, 4096, 1024, 100]))), 'expected-polyglot')
     # two wrappers alive at the same time
     rng6 = ctx.rng('interleaved')
     for i in range(ctx.pick(150, 5000)):
@@ -490,4 +567,6 @@ def run(ctx):
             case = {'kind': 'detect', 'spec': ic.unstructured(rng3)}
         else:
             case = {'kind': 'detect', 'spec': ic.wellformed(rng3, rng3.choice(ic.FORMATS + ['raw']))}
+        if i % 4 == 1:
+            case = dict(case, fifo=True)
         emit(case, 'detect')
